@@ -7,8 +7,8 @@ import tempfile
 from . import core, tlc
 
 # the quick tiers take the first pairs: integers, floating point, BOOL, both string types and an 8-byte type must be among them
-TYPE_PAIRS = [("INT", "DINT"), ("REAL", "LREAL"), ("BOOL", "SSTRING"), ("STRING", "INT"), ("USINT", "LINT"),
-              ("SINT", "USINT"), ("UINT", "UDINT"), ("LINT", "ULINT"), ("DINT", "REAL")]
+TYPE_PAIRS = [("INT", "DINT"), ("REAL", "LREAL"), ("BOOL", "SSTRING"), ("STRING", "INT"), ("LREAL", "LINT"),
+              ("USINT", "LINT"), ("SINT", "USINT"), ("UINT", "UDINT"), ("LINT", "ULINT"), ("DINT", "REAL")]
 
 MC_PROPS = ["INVARIANT TypeOK", "INVARIANT Readable", "PROPERTY FrameOK", "PROPERTY RefusedNoChange",
             "PROPERTY ReadsMemory"]
@@ -88,8 +88,10 @@ def exec_history(job):
     """job = (cfg, mem, [requests]) -> trace line: one history on one device."""
     from . import sim
     cfg, mem, reqs = job
-    dev = sim.Device(cfg)
-    dev.set_mem(mem)
+    # histories run on tags built by the simulator's own main() from 'NAME=TYPE[len]' definitions, untouched by the harness
+    # unless the starting memory differs from what main() created
+    dev = sim.Device(cfg, via_main=True)
+    dev.set_mem(mem, keep_equal=True)
     evs = []
     for q in reqs:
         rpy = dev.cip(q["b"])
